@@ -156,6 +156,12 @@ var two64 = new(big.Int).Lsh(big.NewInt(1), 64)
 
 func (g *valueGen) intV(t *rapid.T) model.V {
 	switch g.cfg.IntRange {
+	case "cbor-supported":
+		// the library's documented subset: [-2^63, 2^64-1]
+		if rapid.IntRange(0, 2).Draw(t, "vineg") == 2 {
+			return model.Int(-1 - int64(Uint64In(t, math.MaxInt64, "vinegm")))
+		}
+		return model.Uint(Uint64In(t, math.MaxUint64, "viu"))
 	case "cbor":
 		if rapid.IntRange(0, 2).Draw(t, "vineg") == 2 {
 			m := Uint64In(t, math.MaxUint64, "vinegm")
